@@ -113,6 +113,32 @@ func (e *Engine) deLoc(st *State, v Value, t types.Type) Value {
 
 // eval evaluates x in st; may add obligations and update st (calls, allocations).
 func (e *Engine) eval(st *State, x ast.Expr) Value {
+	if e.pol != 0 {
+		// polarity of the sub-formula being evaluated (goal-directed instantiation of quantifiers): kept through
+		// parentheses, && and ||, flipped by !, unknown (0) below anything else
+		keep := false
+		switch n := x.(type) {
+		case *ast.ParenExpr:
+			keep = true
+		case *ast.UnaryExpr:
+			if n.Op == token.NOT {
+				e.pol = -e.pol
+				defer func() { e.pol = -e.pol }()
+				keep = true
+			}
+		case *ast.BinaryExpr:
+			keep = n.Op == token.LAND || n.Op == token.LOR
+		case *ast.CallExpr:
+			if id, ok := n.Fun.(*ast.Ident); ok && (id.Name == "forall" || id.Name == "exists") && e.isUniverseCall(n) {
+				keep = true
+			}
+		}
+		if !keep {
+			save := e.pol
+			e.pol = 0
+			defer func() { e.pol = save }()
+		}
+	}
 	if e.hoisted != nil {
 		if v, ok := e.hoisted[x]; ok {
 			return v
@@ -163,7 +189,7 @@ func (e *Engine) eval(st *State, x ast.Expr) Value {
 		v, _ := e.evalTypeAssert(st, n, false)
 		return v
 	case *ast.FuncLit:
-		return FuncV{lit: n}
+		return FuncV{lit: n, pkg: e.pkg}
 	}
 	e.fail(x, "unsupported expression %T: %s", x, e.slug(x))
 	return nil
@@ -405,6 +431,9 @@ func (e *Engine) evalBinary(st *State, n *ast.BinaryExpr) Value {
 			st.pc = e.name("pc", And(st.pc, l))
 		} else {
 			st.pc = e.name("pc", And(st.pc, Not(l)))
+		}
+		if st.pc.s != save.s {
+			e.exprPcParent[st.pc.s] = save.s // a refinement inside one expression, not a program path of its own
 		}
 		hsave := st.clone()
 		mem, al := st.Mem, st.alloc
@@ -1257,7 +1286,11 @@ func heapsDiffer(a, b *State) bool {
 }
 
 func (e *Engine) isUniverseCall(call *ast.CallExpr) bool {
-	if id, ok := call.Fun.(*ast.Ident); ok {
+	fun := call.Fun
+	if ix, ok := fun.(*ast.IndexExpr); ok {
+		fun = ix.X // explicit instantiation of a universe generic
+	}
+	if id, ok := fun.(*ast.Ident); ok {
 		if f, ok := e.pkg.info.Uses[id].(*types.Func); ok && f.Pkg() == nil {
 			return true
 		}
